@@ -64,7 +64,7 @@ def fieldsOfMsg : Msg → String
 /-- `full`: print the re-encoded bytes in full hex -/
 def decLineModel (t : Nat) (src : Bytes) (ctr : UInt64) (full : Bool) : String × UInt64 :=
   match decodeNew t src with
-  | .err => ("err", ctr)
+  | .err => (s!"err n={decodeNewErrN t src}", ctr)
   | .panic => ("panic", ctr)
   | .ok d =>
     let l := d.msg.len
